@@ -217,7 +217,7 @@ type c06PermResult struct {
 
 // c06Explore runs ClusterName for source value d under every map order (or, in
 // replay, under the listed ones) and stores the selected names.
-func c06Explore(cfg *v2.Router, n, total, d int, perms [][]int, replay bool, res map[string]*c06PermResult, problems *[]string, early *[]c06Early) (execs int, complete bool) {
+func c06Explore(cfg *v2.Router, n, total, d int, perms [][]int, replay bool, res map[string]*c06PermResult, problems *[]string, early *[]c06Early, free map[int]string) (execs int, complete bool) {
 	var got string
 	var panicked interface{}
 	var calls int
@@ -248,6 +248,15 @@ func c06Explore(cfg *v2.Router, n, total, d int, perms [][]int, replay bool, res
 		k := fmt.Sprint(r.Choices)
 		if r.Deadlock || r.StepLimit || r.Diverged != "" || len(r.Panics) > 0 {
 			*problems = append(*problems, "execution did not complete: "+r.String()+fmt.Sprint(r.Panics))
+			return
+		}
+		if len(r.Choices) == 0 && n >= 2 && panicked == nil {
+			// the draw was decided without iterating the cluster map (an early return): the result holds
+			// for every map order
+			if calls != 1 {
+				*problems = append(*problems, fmt.Sprintf("ClusterName consumed %d values of the random source (harness expects exactly one Intn(total))", calls))
+			}
+			free[d] = got
 			return
 		}
 		pr := res[k]
@@ -332,15 +341,19 @@ func c06CheckVector(p *vreport.Part, c c06RouteCase) {
 		return
 	}
 	res := map[string]*c06PermResult{}
+	free := map[int]string{} // draws decided without a map iteration: valid for every order
 	var problems []string
 	var early []c06Early
 	execs := 0
 	for d := 0; d < 2*total; d++ {
 		ne := len(early)
-		e, complete := c06Explore(cfg, n, total, d, c.Perms, c.Replay, res, &problems, &early)
+		e, complete := c06Explore(cfg, n, total, d, c.Perms, c.Replay, res, &problems, &early, free)
 		execs += e
 		if !complete {
 			problems = append(problems, "exploration incomplete")
+		}
+		if _, isFree := free[d]; isFree && e == 1 {
+			continue
 		}
 		if !c.Replay && e != c06Fact(n) && len(early) == ne {
 			problems = append(problems, fmt.Sprintf("weights %v source value %d: %d executions, expected %d! = %d map orders", w, d, e, n, c06Fact(n)))
@@ -356,7 +369,25 @@ func c06CheckVector(p *vreport.Part, c c06RouteCase) {
 	if len(early) > 0 && len(problems) == 0 {
 		return // no complete set of executions to count over
 	}
-	if !c.Replay && len(res) != c06Fact(n) {
+	if len(free) > 0 {
+		p.Count("draws_decided_without_iterating_the_cluster_map", len(free))
+		if len(res) == 0 {
+			// every draw was order-free: judge them under the identity order
+			id := make([]int, n)
+			for i := range id {
+				id[i] = i
+			}
+			res["[]"] = &c06PermResult{order: id, sel: make([]string, 2*total)}
+		}
+		for _, pr := range res {
+			for d, g := range free {
+				if pr.sel[d] == "" {
+					pr.sel[d] = g
+				}
+			}
+		}
+	}
+	if !c.Replay && len(res) != c06Fact(n) && len(free) == 0 {
 		problems = append(problems, fmt.Sprintf("weights %v: %d distinct map orders seen, expected %d", w, len(res), c06Fact(n)))
 	}
 	if len(problems) > 0 {
@@ -504,9 +535,13 @@ func TestVerifC06RouteWeights(t *testing.T) {
 				r1, r2 := map[string]*c06PermResult{}, map[string]*c06PermResult{}
 				var pb []string
 				var el []c06Early
-				c06Explore(cfg, 3, 6, d, nil, false, r1, &pb, &el)
+				fr := map[int]string{}
+				c06Explore(cfg, 3, 6, d, nil, false, r1, &pb, &el, fr)
+				if _, orderFree := fr[d]; orderFree && len(r1) == 0 && len(pb) == 0 && len(el) == 0 {
+					continue // this draw is decided without iterating the map: nothing to replay
+				}
 				for _, pr := range r1 {
-					c06Explore(cfg, 3, 6, d, [][]int{pr.choices}, true, r2, &pb, &el)
+					c06Explore(cfg, 3, 6, d, [][]int{pr.choices}, true, r2, &pb, &el, map[int]string{})
 				}
 				for k, pr := range r1 {
 					if r2[k] == nil || r2[k].sel[d] != pr.sel[d] || fmt.Sprint(r2[k].order) != fmt.Sprint(pr.order) {
